@@ -166,7 +166,7 @@ func CheckC03(r *core.Run) {
 	// every behaviour of TxFile.tla within small bounds, replayed on the real store
 	if r.Thorough() {
 		traces = append(traces, replayTxFile(r, "TxReplay_t.cfg", 2, 10)...)
-		traces = append(traces, replayTxFile(r, "TxReplay_t2.cfg", 1, 2)...)
+		traces = append(traces, replayTxFile(r, "TxReplay_t2.cfg", 3, 2)...)
 	} else {
 		traces = append(traces, replayTxFile(r, "TxReplay_q.cfg", 2, 1)...)
 	}
